@@ -19,7 +19,7 @@ CLASSES = {'quick': ['SO2', 'SE2', 'SO3', 'SE3', 'Quaternion', 'UnitQuaternion',
                         'SpatialAcceleration', 'SpatialForce', 'SpatialMomentum']}
 FUNCS = ['index_matches_list', 'slice_matches_list', 'iter_len_match', 'step_matches_list', 'wrong_operand_rejected',
          'construct_from_objects']
-TIMEOUT = {'quick': 40, 'thorough': 240}
+TIMEOUT = {'quick': 40, 'thorough': 120}
 
 
 def func_lines():
